@@ -49,6 +49,17 @@ def ctx : Ctx :=
     datatypes := [("{http://www.w3.org/2001/XMLSchema}string".toList, some .str),
                   ("{http://www.w3.org/2001/XMLSchema}boolean".toList, some .bool)] }
 
+/-- `@dataclass class QRoot: q: Optional[QName] (Element)` -/
+def vQ : XmlVar := mkVar 1 "q" .element [.prim .qname]
+def qrootMeta : XmlMeta :=
+  { clazz := "QRoot".toList, qname := "QRoot".toList, targetQName := some "QRoot".toList, nillable := false,
+    text := none, choices := [], elements := [("q".toList, [vQ])], wildcards := [],
+    attributes := [], anyAttributes := [], wrappers := [] }
+def qrootClass : ClassInfo :=
+  { id := "QRoot".toList, metas := [(none, qrootMeta)], mro := ["QRoot".toList], bases := [],
+    fields := [⟨"q".toList, true, some .none⟩] }
+def ctxQ : Ctx := { classes := [qrootClass], xsiIndex := [("QRoot".toList, ["QRoot".toList])], datatypes := [] }
+
 /-- an environment that knows ASCII only and accepts every name / uri -/
 def benv : BEnv := ⟨Env.ascii, fun s => !s.isEmpty, fun s => !s.isEmpty⟩
 
